@@ -1,6 +1,6 @@
 META = {
     "level": "model_checking",
-    "technique": "TLA+ decision model of the two signature verifiers (SigAlg.tla: CheckDeclared -> LoadKey -> VerifySig) model-checked by TLC over every (side, declared algorithm, cert form, real signing algorithm, blob name, enabled set); every case TLC emits is replayed on the real code (client: full handshake against a harness server whose host key signs with a chosen algorithm, in the initial exchange or - after an honest initial exchange - in a re-exchange started by either peer; server: hand-driven USERAUTH_REQUEST with a genuine signature made with a chosen algorithm, optionally preceded by an unsigned probe naming another algorithm) and the observed accept/reject is judged by TLC with the trace spec",
+    "technique": "TLA+ decision model of the two signature verifiers (SigAlg.tla: CheckDeclared -> LoadKey -> VerifySig) model-checked by TLC over every (side, declared algorithm, cert form, real signing algorithm, blob name, enabled set); every case TLC emits is replayed on the real code (client: full handshake against a harness server whose host key signs with a chosen algorithm, in the initial exchange or - after an honest initial exchange - in a re-exchange started by either peer; server: hand-driven USERAUTH_REQUEST with a genuine signature made with a chosen algorithm, optionally preceded by an unsigned probe naming another algorithm, or sent under a chosen client identification string) and the observed accept/reject is judged by TLC with the trace spec",
     "text": "TLC enumerates the complete decision table for RSA (ssh-rsa, rsa-sha2-256, rsa-sha2-512 and their cert forms), ECDSA (three curves) and Ed25519 with mismatched blob names and with algorithms disabled; the pinned-code model yields a counterexample (a signature with another algorithm than the negotiated/declared one is accepted), the repaired model satisfies UsesDeclared, OnlyEnabled, Exact and Complete; each emitted case is executed: client side by a real handshake in which the server offers only the declared host-key algorithm and signs the exchange hash with the case's algorithm, server side by a scripted client that names the declared algorithm in USERAUTH_REQUEST and attaches a genuine signature made with the case's algorithm over the correct session blob; accept/reject and the verifier's live enabled set are validated by TLC against the statement's predicates",
     "note": "trusted: TLC, the harness host-key object and scripted client (they produce genuine signatures with the bundled test keys via paramiko's sign_ssh_data, then set the blob name), netsched; blob names are base algorithm names (cert-suffixed names inside a signature blob are not generated); DSA is absent from this paramiko",
 }
@@ -14,8 +14,8 @@ ALL = {"Sides": {"client", "server"}, "Families": {"rsa", "ecdsa", "ed25519"}}
 UNIVERSE = list(drv.SIG_FAMILY)
 
 
-def consts(fix, choice, mut="none", probes="all", exch="all"):
-    d = {"Fix": fix, "EnabledChoice": choice, "ProbeChoice": probes, "ExchChoice": exch, "Mut": mut}
+def consts(fix, choice, mut="none", probes="all", exch="all", banners="all"):
+    d = {"Fix": fix, "EnabledChoice": choice, "ProbeChoice": probes, "ExchChoice": exch, "BannerChoice": banners, "Mut": mut}
     d.update(ALL)
     return d
 
@@ -27,11 +27,15 @@ def run(c):
     stage = {}
     choice = "few" if q else "all"
     # ---- M: pinned decision procedure -> counterexample; repaired -> holds and emits the table
-    r = c.mc("SigAlg", cfg_text(constants=consts(False, choice, probes="none", exch="initial"), invariants=INVS), expect="UsesDeclared|OnlyEnabled|Exact",
+    r = c.mc("SigAlg", cfg_text(constants=consts(False, choice, probes="none", exch="initial", banners="default"), invariants=INVS), expect="UsesDeclared|OnlyEnabled|Exact",
              name="unrepaired design: blob algorithm never compared with the negotiated/declared one", workers=1)
     c.mc("SigAlg", cfg_text(constants=consts(True, "few", "algcheck_first_exchange_only", probes="none"), invariants=INVS),
          expect="UsesDeclared|OnlyEnabled|Exact",
          name="seeded design error: negotiated-algorithm comparison only in the first exchange", workers=1)
+    if not q or c.seed % 2 == 1:
+        c.mc("SigAlg", cfg_text(constants=consts(True, "few", "sigtype_compat", probes="none", exch="initial"), invariants=INVS),
+             expect="UsesDeclared|OnlyEnabled|Exact",
+             name="seeded design error: rsa-sha2 signature accepted for ssh-rsa when the client announces OpenSSH 7.2-7.7", workers=1)
     if not q:
         c.mc("SigAlg", cfg_text(constants=consts(True, "few", "probe_caches_key"), invariants=INVS), expect="OnlyEnabled|Exact",
              name="seeded design error: key object of an answered probe reused, enabled-set check skipped", workers=1)
@@ -47,20 +51,26 @@ def run(c):
 
     # ---- RP: replay (quick: every genuine-signature case that matters + a seeded sample of relabelled ones)
     todo = []
-    for _, side, fam, decl, cert, sign, blob, enabled, phase, probe, exch in cases:
+    for _, side, fam, decl, cert, sign, blob, enabled, phase, probe, exch, banner in cases:
         en = sorted(enabled)
         full = len(en) == len([x for x in UNIVERSE if drv.SIG_FAMILY[x] == fam])
         core = blob == sign and (full or sign not in en or decl not in en)
         if exch != "initial":      # re-exchanges need a finished first exchange: the negotiated algorithm is enabled
             core = core and decl in en
+        if banner != "paramiko":   # client identification strings: fixed stratum = a request naming one RSA algorithm
+            # signed with another, under every banner class, with the full set and with the signing algorithm disabled;
+            # thorough: every genuine-signature row under every banner
+            core = blob == sign and decl != sign and not cert and (full or sign not in en) and decl in en
+            if not q and blob != sign:
+                continue
         if probe != "none":        # probe-then-sign: the dangerous shape is an ANSWERED probe before a request that must fail
             core = core and probe in en and probe != decl and (decl not in en or (len(decl) + len(sign) + len(en)) % 3 == c.seed % 3)
         todo.append({"side": side, "fam": fam, "decl": decl, "cert": cert, "sign": sign, "blob": blob, "enabled": en,
-                     "model": phase, "genuine": blob == sign, "probe": probe, "exch": exch, "core": core})
+                     "model": phase, "genuine": blob == sign, "probe": probe, "exch": exch, "banner": banner, "core": core})
     if q:
         rest = [x for x in todo if not x["core"]]
         rnd.shuffle(rest)
-        todo = [x for x in todo if x["core"]] + rest[:30]
+        todo = [x for x in todo if x["core"]] + rest[:15]
     records, meta = [], []
     for cs in todo:
         fam_names = [x for x in UNIVERSE if drv.SIG_FAMILY[x] == cs["fam"]]
@@ -71,19 +81,23 @@ def run(c):
             kw = {"probe": cs["probe"]} if cs["probe"] != "none" else {}
             if cs["side"] == "client":
                 kw["exch"] = cs["exch"]
+            elif cs["banner"] != "paramiko":
+                kw["banner"] = cs["banner"]
             obs = f(declared, cs["sign"], cs["blob"], disabled, fam_names, **kw)
         except RuntimeError as e:
             raise Machinery("case %r could not be driven: %s" % (cs, e))
         if obs["enabled"] != cs["enabled"]:
             raise Machinery("verifier's enabled set %r is not the case's %r" % (obs["enabled"], cs["enabled"]))
         rec = {"side": cs["side"], "decl": cs["decl"], "cert": cs["cert"], "sign": cs["sign"], "blob": cs["blob"],
-               "enabled": obs["enabled"], "accepted": obs["accepted"], "probe": cs["probe"], "exch": cs["exch"],
+               "enabled": obs["enabled"], "accepted": obs["accepted"], "probe": cs["probe"], "exch": cs["exch"], "banner": cs["banner"],
                "probe_ok": bool(obs.get("probe_ok", False))}
         records.append(rec)
         meta.append((cs, obs))
         if cs["exch"] != "initial" and cs["decl"] in cs["enabled"] and not obs.get("first_ok"):
             raise Machinery("the honest first exchange of a re-exchange case did not complete: %r %r" % (cs, obs))
-        c.case(key="%s|%s|%s|%s|%s|%s|%s" % (cs["side"], declared, cs["sign"], cs["blob"], ",".join(cs["enabled"]), cs["probe"], cs["exch"]),
+        if cs["banner"] != "paramiko" and obs.get("banner_seen") != drv.BANNERS[cs["banner"]]:
+            raise Machinery("the server saw identification string %r, not %r" % (obs.get("banner_seen"), drv.BANNERS[cs["banner"]]))
+        c.case(key="%s|%s|%s|%s|%s|%s|%s|%s" % (cs["side"], declared, cs["sign"], cs["blob"], ",".join(cs["enabled"]), cs["probe"], cs["exch"], cs["banner"]),
                sample={"side": cs["side"], "declared": declared, "signed_with": cs["sign"], "blob_names": cs["blob"],
                        "enabled": cs["enabled"], "accepted": obs["accepted"], "detail": obs["error"]}
                if len(c.samples) < 6 and cs["genuine"] and cs["sign"] != cs["decl"] and cs["decl"] in cs["enabled"] and
@@ -104,14 +118,16 @@ def run(c):
 
     def describe(tid, clause, row):
         cs, obs = meta[tid - 1]
-        key = "%s:%s:%s%s" % (clause, cs["side"], cs["fam"], ":after_probe" if cs["probe"] != "none" else ":rekey" if cs["exch"] != "initial" else "")
+        key = "%s:%s:%s%s" % (clause, cs["side"], cs["fam"], ":after_probe" if cs["probe"] != "none" else ":rekey" if cs["exch"] != "initial"
+                                   else ":by_client_banner" if cs["banner"] != "paramiko" else "")
         seen[key] = seen.get(key, 0) + 1
         verb = (("client accepted" if obs["accepted"] else "client refused") + " the key exchange: negotiated host-key algorithm %s"
                 if cs["side"] == "client" else
                 ("server granted" if obs["accepted"] else "server refused") + " publickey auth: request names %s")
         what = "%s%s, signature made with %s, blob names %s, enabled %s%s" % (
             ("after an unsigned probe naming %s (%s): " % (cs["probe"], "PK_OK" if obs.get("probe_ok") else "refused")) if cs["probe"] != "none"
-            else ("in a re-exchange started by the %s: " % cs["exch"].split("_")[1]) if cs["exch"] != "initial" else "",
+            else ("in a re-exchange started by the %s: " % cs["exch"].split("_")[1]) if cs["exch"] != "initial"
+            else ("client announces %r: " % drv.BANNERS[cs["banner"]]) if cs["banner"] != "paramiko" else "",
             verb % (cs["decl"] + (drv.CERT if cs["cert"] else "")), cs["sign"], cs["blob"], cs["enabled"],
             "" if obs["accepted"] else " (" + obs["error"] + ")")
         return key, what, {"case": cs, "observed": obs}
@@ -125,6 +141,6 @@ def run(c):
               "(family names + one foreign name) x enabled set (%s); %s; distinct = distinct table row"
               % ("all subsets of the family's names" if not q else "full set and full minus one name",
                  "every row replayed (server rows also after every unsigned probe, client rows also in client- and server-initiated re-exchanges)" if not q else
-                 "replayed: every genuine-signature row with the full set or with the signing / declared algorithm disabled, plus 30 seeded other rows; client rows of that kind with the negotiated algorithm enabled also in both kinds of re-exchange; server side also probe-then-sign sequences: every such row whose declared algorithm is disabled after every answered probe, a seeded third of the others"))
+                 "replayed: every genuine-signature row with the full set or with the signing / declared algorithm disabled, plus 15 seeded other rows; server-side RSA requests naming one algorithm and signed with another also under every client identification string class (paramiko, OpenSSH 7.2/7.4/7.7/8.9, PuTTY); client rows of that kind with the negotiated algorithm enabled also in both kinds of re-exchange; server side also probe-then-sign sequences: every such row whose declared algorithm is disabled after every answered probe, a seeded third of the others"))
     c.assumptions = ["the signature is genuine for the algorithm it was made with (bundled test keys); only the declared name, the blob name and the enabled set vary",
                      "client side: the harness server offers exactly one host-key algorithm so that it is the one negotiated"]
